@@ -348,8 +348,18 @@ def run_oracle(states):
                 return o
             lost = live - after
             if lost:
-                o.bad(i, "collect:freed-reachable-cell", "reachable cells were freed: %s (roots %s)" % (
-                    sorted(lost, key=int)[:8], roots[:8]))
+                # the edge at which marking stopped (part of the key): a lost cell that is a root,
+                # or is referenced by a cell that survived
+                front = [(int(c), 0, "root") for c in lost if c in roots]
+                if not front:
+                    for p in live - lost:
+                        for r in refs_of(prev.cells[p]):
+                            if r in lost:
+                                front.append((int(r), int(p), prev.cells[p].split(" ", 1)[0]))
+                via = min(front)[2] if front else "unknown"
+                o.bad(i, "collect:freed-reachable-cell:via-" + via,
+                      "reachable cells were freed: %s (marking stopped at an edge from a %s; roots %s)" % (
+                          sorted(lost, key=int)[:8], via, roots[:8]))
                 return o
             kept = after - live
             if kept:
@@ -691,11 +701,27 @@ def run_single(ctx, drv, path, wd, label):
     return 1, nt, r
 
 
+def runner_is_current():
+    """build/ocaml/gc/run exists and is newer than everything it is made from"""
+    if not os.path.exists(RUN):
+        return False
+    srcs = [os.path.join(common.COQ, "Extract", "ExtractGC.v"), os.path.join(common.COQ, "GC", "GCModel.vo"),
+            os.path.join(common.COQ, "Base", "TMap.vo")]
+    d = os.path.join(common.VERIF, "harness", "ocaml", "gc")
+    srcs += [os.path.join(d, f) for f in os.listdir(d) if f.endswith(".ml")]
+    t = os.path.getmtime(RUN)
+    return all(os.path.exists(p) and os.path.getmtime(p) <= t for p in srcs)
+
+
 def run(ctx):
     t_start = time.time()
     ctx.proofs()
     lib = common.repobuild("asan")
     ok, log = common.ocaml_build()
+    if not ok and runner_is_current():
+        # bin/build-ocaml stops at the first engine that fails; ours was built before that
+        ctx.notes["ocaml_build_failed_in_another_engine"] = log[-300:]
+        ok = True
     if not ok or not os.path.exists(RUN):
         ctx.correspondence_broken("ocaml-build", log[-3000:])
         return
